@@ -114,9 +114,12 @@ def d_archives(ctx):
     import sevenz_min
     from sharepoint2text.parsing.extractors import archive_extractor as ae
     rng = ctx.rng
-    LIMIT = 64
+    # the per-member limit is RE-CONFIGURED between archives (lower and higher than before): the limit in force is
+    # the one configured when the archive is read, whatever the process extracted or configured earlier
+    LIMITS = [64, 40, 96, 64, 128, 48, 200, 33]
+    LIMIT = LIMITS[0]
+    limit_hist = []
     saved = ae._config
-    ae.configure_archive_extraction(max_memory_size=LIMIT)
     zcases, scases, zinfo, sinfo = [], [], [], []
     reads, writes = [], []
     orig_read = zipfile.ZipFile.read
@@ -147,19 +150,27 @@ def d_archives(ctx):
     ae._process_7z_files_sequential = spy_seq
     try:
         # scripted scenarios first: same-name members on both sides of the limit, in both orders
-        scripted = []
-        for fmt0 in ("zip", "zip-stored", "tar", "tar.gz"):
+        def mk_scripted(LIMIT):
+          scripted = []
+          for fmt0 in ("zip", "zip-stored", "tar", "tar.gz"):
             for a, b in ((LIMIT - 4, LIMIT * 3), (LIMIT * 3, LIMIT - 4), (LIMIT, LIMIT + 1), (LIMIT + 1, LIMIT)):
                 scripted.append((fmt0, [(0, "same.txt", "txt", a), (1, "same.txt", "txt", b), (2, "other.txt", "txt", 5)]))
                 scripted.append((fmt0, [(0, "x.txt", "txt", 7), (1, "d/same.md", "md", a), (2, "d/same.md", "md", b)]))
-        # tar link / special members: not regular files, must never be read (a hard link to an oversize
-        # member would otherwise be materialised under the link's name)
-        for fmt0 in ("tar", "tar.gz"):
+          # tar link / special members: not regular files, must never be read (a hard link to an oversize
+          # member would otherwise be materialised under the link's name)
+          for fmt0 in ("tar", "tar.gz"):
             for a in (LIMIT * 3, LIMIT - 4):
                 scripted.append((fmt0, [(0, "big.txt", "txt", a), (1, "hard.txt", "lnk:big.txt", 0), (2, "soft.txt", "sym:big.txt", 0),
                                         (3, "fifo.txt", "fifo", 0), (4, "z.txt", "txt", 5)]))
-        n_random = ctx.n(60, 600)
-        for it in range(len(scripted) + n_random):
+          return scripted
+        n_scripted = len(mk_scripted(64))
+        n_random = ctx.n(90, 600)
+        for it in range(n_scripted + n_random):
+            LIMIT = LIMITS[it % len(LIMITS)] if it % 3 else LIMITS[(it // 3) % len(LIMITS)]
+            ae.configure_archive_extraction(max_memory_size=LIMIT)
+            ctx.count(f"archive:limit-in-force:{LIMIT}")
+            limit_hist.append(LIMIT)
+            scripted = mk_scripted(LIMIT)
             n = rng.randint(0, 6) if it >= len(scripted) else 0
             members = [] if it >= len(scripted) else list(scripted[it][1])
             for i in range(n):
@@ -243,8 +254,10 @@ def d_archives(ctx):
                                     f"written to the temporary directory by extractall()",
                                     {"format": fmt, "members": members, "limit": LIMIT, "archive": buf.getvalue()})
                     if k != "dir" and len(data_of[i]) > LIMIT and i in pr_ids:
-                        ctx.finding(f"oversize-member-processed:{fmt}", f"oversize member {nm} produced a result",
-                                    {"format": fmt, "members": members, "archive": buf.getvalue()})
+                        ctx.finding(f"oversize-member-processed:{fmt}", f"oversize member {nm} ({len(data_of[i])} B > limit in force "
+                                    f"{LIMIT} B, configured after {limit_hist[-4:-1]}) produced a result",
+                                    {"format": fmt, "members": members, "archive": buf.getvalue(), "limit_in_force": LIMIT,
+                                     "limits_configured_before_in_this_process": limit_hist[:-1][-6:]})
             else:
                 rd_ids = list(reads)
                 for i, nm, k, sz in members:
@@ -255,8 +268,10 @@ def d_archives(ctx):
                 zinfo.append((fmt, members, rd_ids, pr_ids, err))
                 for i, nm, k, sz in members:
                     if k != "dir" and len(data_of[i]) > LIMIT and (i in rd_ids or i in pr_ids):
-                        ctx.finding(f"oversize-member-read:{fmt}", f"{fmt} member {nm} above the limit was decompressed/processed",
-                                    {"format": fmt, "members": members, "archive": buf.getvalue()})
+                        ctx.finding(f"oversize-member-read:{fmt}", f"{fmt} member {nm} ({len(data_of[i])} B) above the per-member limit "
+                                    f"in force ({LIMIT} B, configured after {limit_hist[-4:-1]}) was decompressed/processed",
+                                    {"format": fmt, "members": members, "archive": buf.getvalue(), "limit_in_force": LIMIT,
+                                     "limits_configured_before_in_this_process": limit_hist[:-1][-6:]})
     finally:
         zipfile.ZipFile.read = orig_read
         tarfile.TarFile.extractfile = orig_extractfile
@@ -281,18 +296,36 @@ ODS_NS = ('xmlns:office="urn:oasis:names:tc:opendocument:xmlns:office:1.0" '
           'xmlns:text="urn:oasis:names:tc:opendocument:xmlns:text:1.0"')
 
 
-def ods_bytes(rows):
-    """rows: [(row_repeat, [(cell_repeat, is_none)])]"""
+# encodings of a cell that shows nothing (no text, no usable value): all of them are "empty" for the repeat caps
+BLANK_CELLS = [
+    '<table:table-cell{rep}/>',
+    '<table:table-cell{rep} office:value-type="string"><text:p/></table:table-cell>',
+    '<table:table-cell{rep} office:value-type="string" office:string-value=""/>',
+    '<table:table-cell{rep} office:value-type="string" office:string-value=""><text:p/></table:table-cell>',
+    '<table:table-cell{rep} office:value-type="float" office:value=""/>',
+    '<table:table-cell{rep} office:value-type="date" office:date-value=""/>',
+    '<table:table-cell{rep} office:value-type="boolean" office:boolean-value=""><text:p></text:p></table:table-cell>',
+    '<table:table-cell{rep} office:value-type="" table:style-name="ce1"/>',
+    '<table:table-cell{rep} office:value-type="string"><text:p><text:span/></text:p></table:table-cell>',
+]
+FILLED_CELLS = [
+    '<table:table-cell{rep} office:value-type="string"><text:p>v</text:p></table:table-cell>',
+    '<table:table-cell{rep} office:value-type="float" office:value="0"><text:p>0</text:p></table:table-cell>',
+    '<table:table-cell{rep} office:value-type="boolean" office:boolean-value="false"><text:p>FALSE</text:p></table:table-cell>',
+    '<table:table-cell{rep}><text:p>w</text:p></table:table-cell>',
+]
+
+
+def ods_bytes(rows, variants=None):
+    """rows: [(row_repeat, [(cell_repeat, is_none)])]; variants: optional parallel structure of encoding indices"""
     x = [f'<?xml version="1.0" encoding="UTF-8"?><office:document-content {ODS_NS}><office:body><office:spreadsheet>'
          '<table:table table:name="S">']
-    for rrep, cells in rows:
+    for ri, (rrep, cells) in enumerate(rows):
         x.append(f'<table:table-row table:number-rows-repeated="{rrep}">')
-        for crep, none in cells:
-            if none:
-                x.append(f'<table:table-cell table:number-columns-repeated="{crep}"/>')
-            else:
-                x.append(f'<table:table-cell table:number-columns-repeated="{crep}" office:value-type="string">'
-                         '<text:p>v</text:p></table:table-cell>')
+        for ci, (crep, none) in enumerate(cells):
+            v = variants[ri][ci] if variants else 0
+            tmpl = (BLANK_CELLS[v % len(BLANK_CELLS)] if none else FILLED_CELLS[v % len(FILLED_CELLS)])
+            x.append(tmpl.replace("{rep}", f' table:number-columns-repeated="{crep}"'))
         x.append("</table:table-row>")
     x.append("</table:table></office:spreadsheet></office:body></office:document-content>")
     buf = io.BytesIO()
@@ -313,8 +346,12 @@ def d_ods(ctx):
         for _ in range(rng.randint(0, 4)):
             cells = [(rng.choice([1, 1, 2, 3, 0, 100, 101, 150, -1]), rng.random() < 0.5) for _ in range(rng.randint(0, 4))]
             rows.append((rng.choice([1, 1, 2, 3, 0, 100, 101, 200, -2]), cells))
+        variants = [[rng.randrange(10) for _ in cs] for _, cs in rows]
+        for (_, cs), vs in zip(rows, variants):
+            for (_, none), v in zip(cs, vs):
+                ctx.count(("ods:blank-encoding:%d" % (v % len(BLANK_CELLS))) if none else ("ods:filled-encoding:%d" % (v % len(FILLED_CELLS))))
         try:
-            res = list(read_ods(io.BytesIO(ods_bytes(rows))))
+            res = list(read_ods(io.BytesIO(ods_bytes(rows, variants))))
             sheets = res[0].sheets
             dim = sheets[0].get_dim() if sheets else None
             got = (dim.rows, dim.columns) if dim else (0, 0)
@@ -325,11 +362,42 @@ def d_ods(ctx):
                  kind="ods:shape")
         term = "[" + ";".join(f"({r}, [" + ";".join(f"({c}, {'true' if n else 'false'})" for c, n in cs) + "])" for r, cs in rows) + "]"
         cases.append(f"({term}%Z, ({got[0]}%nat, {got[1]}%nat))")
-        info.append((rows, got))
+        info.append((rows, got, variants))
     pre = "From S2T Require Import C12.Model C12.Corr.\nOpen Scope Z_scope.\n"
     ok, failing, log = coq_eval_shards(ctx, "ods", pre, "ods_case", cases, ty="list row * (nat * nat)")
     ctx.obligation("correspondence:final_dims(expand_rows)==read_ods sheet shape", ok and not failing,
                    f"{[info[i] for i in failing[:3]]} {log[:500]}")
+    # failing-input search: a sheet that comes out LARGER than the model's shape materialised cells the caps should
+    # have collapsed/trimmed (which cell encodings count as empty is part of the repeat caps)
+    for i in failing[:40]:
+        rows, got, variants = info[i]
+        want = py_final_dims(rows)
+        if got[0] * max(got[1], 1) > want[0] * max(want[1], 1):
+            encs = sorted({BLANK_CELLS[v % len(BLANK_CELLS)].replace("{rep}", "") for (_, cs), vs in zip(rows, variants)
+                           for (rep, none), v in zip(cs, vs) if none})
+            ctx.finding("ods-empty-cells-materialised", f"ODS sheet comes out as {got[0]}x{got[1]} cells, the repeat caps for empty "
+                        f"cells/rows give {want[0]}x{want[1]}: cells that show nothing are not treated as empty (encodings "
+                        f"in this sheet: {encs})", {"rows": rows, "cell_encodings": variants, "input": ods_bytes(rows, variants),
+                                                    "got_dims": got, "model_dims": want})
+
+
+def py_final_dims(rows):
+    """Python twin of C12.Model.final_dims (only used to phrase a finding; the decision is the Coq correspondence)."""
+    out = []
+    for rrep, cells in rows:
+        v = []
+        for crep, none in cells:
+            v += [True] if (none and crep > 100) else [none] * max(crep, 0)
+        out += [v] if (rrep > 100 and all(v)) else [v] * max(rrep, 0)
+    while out and all(out[-1]):
+        out.pop()
+    cols = 0
+    for r in out:
+        k = len(r)
+        while k and r[k - 1]:
+            k -= 1
+        cols = max(cols, k)
+    return (len(out), cols)
 
 
 def d_spaces(ctx):
@@ -487,7 +555,43 @@ def scaling(ctx):
     def txt(k):
         return b"line of text\n" * k
 
-    shapes = [("mbox", mbox, ctx.n(1500, 6000)), ("html", html, ctx.n(150, 220)), ("rtf", rtf, ctx.n(4000, 16000)),
+    def _zipbytes(members):
+        buf = io.BytesIO()
+        with zipfile.ZipFile(buf, "w", zipfile.ZIP_STORED) as z:
+            for nm, d in members:
+                z.writestr(nm, d)
+        return buf.getvalue()
+
+    def epub(k):
+        # k filler members + 3k manifest items (most of them referencing parts that do not exist): every lookup of a
+        # referenced part must be O(1) in the number of members, or the cost is members x references
+        items = "".join(f'<item id="i{i}" href="img/p{i}.png" media-type="image/png"/>' for i in range(3 * k))
+        opf = ('<?xml version="1.0"?><package xmlns="http://www.idpf.org/2007/opf" version="3.0" unique-identifier="u">'
+               '<metadata xmlns:dc="http://purl.org/dc/elements/1.1/"><dc:title>t</dc:title><dc:identifier id="u">x</dc:identifier>'
+               '</metadata><manifest><item id="c1" href="c1.xhtml" media-type="application/xhtml+xml"/>' + items +
+               '</manifest><spine><itemref idref="c1"/></spine></package>')
+        ms = [("mimetype", "application/epub+zip"),
+              ("META-INF/container.xml", '<?xml version="1.0"?><container version="1.0" xmlns="urn:oasis:names:tc:opendocument:'
+               'xmlns:container"><rootfiles><rootfile full-path="OEBPS/content.opf" media-type="application/oebps-package+xml"/>'
+               '</rootfiles></container>'),
+              ("OEBPS/content.opf", opf),
+              ("OEBPS/c1.xhtml", '<html xmlns="http://www.w3.org/1999/xhtml"><body><p>x</p></body></html>')]
+        ms += [(f"OEBPS/filler/f{i}.bin", b"") for i in range(k)]
+        return _zipbytes(ms)
+
+    def odt(k):
+        # k filler members + 3k picture frames whose xlink:href names parts that do not exist
+        frames = "".join(f'<draw:frame draw:name="p{i}"><draw:image xlink:href="Pictures/p{i}.png"/></draw:frame>' for i in range(3 * k))
+        content = (f'<?xml version="1.0"?><office:document-content {ODS_NS} xmlns:draw="urn:oasis:names:tc:opendocument:xmlns:drawing:1.0" '
+                   'xmlns:xlink="http://www.w3.org/1999/xlink"><office:body><office:text><text:p>' + frames +
+                   '</text:p></office:text></office:body></office:document-content>')
+        ms = [("mimetype", "application/vnd.oasis.opendocument.text"), ("content.xml", content),
+              ("META-INF/manifest.xml", '<?xml version="1.0"?><manifest:manifest xmlns:manifest="urn:oasis:names:tc:opendocument:xmlns:manifest:1.0"/>')]
+        ms += [(f"Thumbnails/f{i}.bin", b"") for i in range(k)]
+        return _zipbytes(ms)
+
+    shapes = [("epub", epub, ctx.n(3000, 8000)), ("odt", odt, ctx.n(3000, 8000)),
+              ("mbox", mbox, ctx.n(1500, 6000)), ("html", html, ctx.n(150, 220)), ("rtf", rtf, ctx.n(4000, 16000)),
               ("txt", txt, ctx.n(20000, 80000))]
     meas = {}
     with tempfile.TemporaryDirectory(dir="/var/tmp") as td:
